@@ -273,6 +273,26 @@ pub fn run(tier: Tier, seed: u64) -> i32 {
     });
     total.merge(st);
 
+    // far beyond the enumerated scope: 300 pins and 40 tests in one document
+    {
+        let mut pins = vec![];
+        for i in 0..300 {
+            pins.push(match i % 4 {
+                0 => Pin::new(PinKind::In, &format!("I{i}")).bits(&format!("{}", i % 64 + 1)).default(digxml::Default::Value(i as i64)),
+                1 => Pin::new(PinKind::Out, &format!("O{i}")).bits("8"),
+                2 => Pin::new(PinKind::Clock, &format!("K{i}")),
+                _ => Pin::new(PinKind::In, &format!("Z{i}")).default(digxml::Default::Z),
+            });
+        }
+        let tests: Vec<TestDesc> = (0..40).map(|t| TestDesc { label: Some(format!("test {}", t % 37)), source: format!("I{} I{}_out O{} K{}\n{} X 1 C\n", t * 4, t * 4, t * 4 + 1, t * 4 + 2, t) }).collect();
+        total.evals += 1;
+        total.nontrivial += 1;
+        total.witness("document_with_300_pins_and_40_tests");
+        if let Some((class, desc)) = check_doc(&pins, &tests, &mut total) {
+            let doc = digxml::render(&pins, &tests);
+            total.violation(&format!("large scale: {class}"), 1 << 61, format!("300 pins, 40 tests\n{desc}"), || json!({"kind": "dig", "document": doc, "expected": ["as described"], "observed": [describe_doc(&doc)]}));
+        }
+    }
     // corruptions: loading never panics
     let bases = base_documents();
     for (bi, (bname, doc)) in bases.iter().enumerate() {
@@ -358,7 +378,7 @@ pub fn run(tier: Tier, seed: u64) -> i32 {
             "the name given to a Testcase without Label entry is not specified".into(),
             "dig::File::open (file system) is not explored; parse is".into(),
         ],
-        required_witnesses: vec!["loadable_document", "unloadable_document_rejected", "bidirectional_signal_recovered", "load_test_ok", "load_test_err_same_class", "duplicate_test_label", "corrupted_document_still_loads", "corrupted_document_rejected"],
+        required_witnesses: vec!["document_with_300_pins_and_40_tests", "loadable_document", "unloadable_document_rejected", "bidirectional_signal_recovered", "load_test_ok", "load_test_err_same_class", "duplicate_test_label", "corrupted_document_still_loads", "corrupted_document_rejected"],
         exhaustive_note: "all menu sequences within the bounds; all listed corruptions".into(),
         e1: false,
     };
